@@ -17,6 +17,10 @@ MN_SHAPES = {
     "grid23": (6, [(0, 1), (1, 2), (3, 4), (4, 5), (0, 3), (1, 4), (2, 5)]),
     "k4": (4, [(0, 1), (0, 2), (0, 3), (1, 2), (1, 3), (2, 3)]),
     "two_tri": (5, [(0, 1), (1, 2), (0, 2), (2, 3), (3, 4), (2, 4)]),
+    # clique trees whose sepsets have THREE variables (axis permutations of a sepset that are not involutions exist from 3 on)
+    "k5m": (5, [(0, 1), (0, 2), (0, 3), (0, 4), (1, 2), (1, 3), (1, 4), (2, 3), (2, 4)]),
+    "wheel5": (5, [(0, 1), (0, 2), (0, 3), (0, 4), (1, 2), (2, 3), (3, 4), (4, 1)]),
+    "core3x3": (6, [(0, 1), (0, 2), (1, 2), (0, 3), (1, 3), (2, 3), (0, 4), (1, 4), (2, 4), (0, 5), (1, 5), (2, 5)]),
 }
 
 
